@@ -295,4 +295,7 @@ var preludeAxioms = []string{
 	`(assert (forall ((s Str) (i Int)) (! (and (<= 0 (rdecode s i)) (<= (rdecode s i) 1114111)) :pattern ((rdecode s i)))))`,
 	`(assert (forall ((s Str) (i Int)) (! (=> (and (<= 0 i) (< i (slen s)) (< (sat s i) 128)) (and (= (rwidth s i) 1) (= (rdecode s i) (sat s i)))) :pattern ((rwidth s i)) :pattern ((rdecode s i)))))`,
 	`(assert (forall ((s Str) (i Int)) (! (=> (and (<= 0 i) (< i (slen s)) (>= (sat s i) 128)) (>= (rdecode s i) 128)) :pattern ((rdecode s i)))))`,
+	// decoding depends only on the bytes from the position on: decoding the suffix s[i:] at 0 is decoding s at i
+	`(assert (forall ((s Str) (i Int) (j Int)) (! (=> (and (<= 0 i) (< i j) (= j (slen s))) (= (rwidth (ssub s i j) 0) (rwidth s i))) :pattern ((rwidth (ssub s i j) 0)))))`,
+	`(assert (forall ((s Str) (i Int) (j Int)) (! (=> (and (<= 0 i) (< i j) (= j (slen s))) (= (rdecode (ssub s i j) 0) (rdecode s i))) :pattern ((rdecode (ssub s i j) 0)))))`,
 }
